@@ -537,7 +537,8 @@ def trailing_newline_names(ctx):
 
 FRINGE_TREE = [('\u0130stanbul.txt', 'f', None), ('stra\u00dfe', 'f', None), ('\ufb01le.txt', 'f', None), ('Ma\u00dfe', 'd', None), ('Ma\u00dfe/a', 'f', None),
                ('caf\u00e9', 'd', None), ('caf\u00e9/\u00c9t\u00e9.TXT', 'f', None), ('\u212a', 'f', None), ('\u01c5', 'f', None), ('\U0001F600.txt', 'f', None), ('sub', 'd', None),
-               ('sub/\u0130', 'f', None), ('\u03a3\u03c3\u03c2', 'f', None), ('plain.txt', 'f', None), ('e\u0301', 'f', None), ('\u00e9', 'f', None)]
+               ('sub/\u0130', 'f', None), ('\u03a3\u03c3\u03c2', 'f', None), ('plain.txt', 'f', None), ('e\u0301', 'f', None), ('\u00e9', 'f', None),
+               ('d/e/x.txt', 'f', None), ('D/e/other.txt', 'f', None), ('p/q/r/s/x.txt', 'f', None), ('P/q/r/s/z', 'f', None), ('\u00f6/\u00fc/x.txt', 'f', None), ('\u00d6/\u00fc/y', 'f', None)]
 
 
 def fringe_names(ctx):
@@ -562,9 +563,13 @@ def fringe_names(ctx):
                 except Exception as ex:
                     ctx.counterexample('glob(escape(%r), %s) raised %s: %s' % (e, corr.flag_names(fv), type(ex).__name__, ex), {'entry': e, 'flags': corr.flag_names(fv)})
                     continue
-                if e not in got or e not in gotb or e not in gotp or not mt:
-                    ctx.counterexample('the existing entry %r, written exactly as glob.escape gives it, under %s: glob finds %r, bytes glob %r, Path.glob %r, globmatch(REALPATH) %r' % (
-                        e, corr.flag_names(fv), got, gotb, gotp, mt), {'entry': e, 'pattern': pat, 'flags': corr.flag_names(fv), 'tree': [x[0] for x in FRINGE_TREE]})
+                want = sorted(q for q in cands if q.lower() == e.lower()) if (fv & Gm.IGNORECASE) and not (fv & Gm.CASE) else [e]
+                # case-insensitive results are de-duplicated case-insensitively (C13): one spelling per path stays, any of them
+                okset = lambda g: sorted(g) == want or (len(want) > 1 and len(g) == 1 and g[0] in want)
+                gotn = sorted(x.rstrip('/') for x in Gm.glob(pat, flags=fv | Gm.NOUNIQUE, root_dir=T.root))
+                if not okset(got) or not okset(gotb) or not okset(gotp) or not mt or gotn != want:
+                    ctx.counterexample('the existing entry %r, written exactly as glob.escape gives it, under %s denotes %r: glob finds %r (with NOUNIQUE %r), bytes glob %r, Path.glob %r, globmatch(REALPATH) %r' % (
+                        e, corr.flag_names(fv), want, got, gotn, gotb, gotp, mt), {'entry': e, 'pattern': pat, 'flags': corr.flag_names(fv), 'tree': [x[0] for x in FRINGE_TREE]})
                     break
         pats = ['strasse', 'STRASSE', 'stra\u00dfe', 'STRA\u1e9eE', 'file.txt', '\ufb01le.TXT', 'masse/*', 'Ma\u00dfe/*', 'caf\u00c9/*', 'CAF\u00c9/\u00e9T\u00c9.txt', '*', '*.txt', '?', 'k', 'K', '\u212a',
                 '\u01c6', 'ISTANBUL.TXT', '\u0130STANBUL.TXT', 'sub/i', 'sub/\u0130', '\u03c3\u03c3\u03c3', '\u03a3\u03a3\u03a3', '\u00c9', 'E\u0301', '[\u00e9]', '*\u00e9*']
